@@ -55,8 +55,9 @@ class BuiltinMixin:
         if not args:
             hint = self.pending_list_hint
             self.pending_list_hint = None
-            if hint is not None:
-                return [(p, self.new_box(p, "list", [hint], VSeq.empty(hint)))]
+            if hint is not None and isinstance(hint, TRef) and hint.cls in self.classes and self.classes[hint.cls].box:
+                ety = self.classes[hint.cls].box[1]
+                return [(p, self.new_box(p, "list", [ety], VSeq.empty(ety)))]
             return [(p, self.new_object(p, "list[?]", "list"))]
         v = args[0]
         if isinstance(v, VTup) and not v.items:
